@@ -34,7 +34,7 @@ CHECKS = {
     ),
     "C08": (
         "fault_enumeration", "DESIGN.md §4 C08, §2.3",
-        "schedule enumeration through hook H1 (all k! completion orders of the object-stream blocks, k<=6) + sampling of real schedules on rayon pools of 1..16 threads with injected delays; digest oracle against the sequential build",
+        "schedule enumeration through hook H1 (all k! completion orders of the object-stream blocks, k<=6) + sampling of real schedules on rayon pools of 1..16 threads with injected delays (also: object streams of 256..1300 objects, the filtered loader in child processes watched through their CPU clock, files decrypted at load); digest oracle against the sequential build; Miri on the rayon loader in the thorough tier",
         "The only place where thread completion order can reach the loaded document (the accumulator merged after the parallel phase) is enumerated exhaustively per file via the hook; real interleavings are sampled with delays and the distinct completion orders observed are reported; every digest is compared with the no-default-features build.",
         "Hook H1 is add-only and compiled only with --cfg lopdf_verif. Interleavings inside the parsing of a single object are sampled, not enumerated.",
     ),
